@@ -40,7 +40,7 @@ Outcome(s, kn) ==
                 (IF "nfci" \in DEV_NilDerefs THEN [class |-> "500", leaks |-> DEV_CreateNoDefer] ELSE [class |-> "4xx", leaks |-> FALSE])
          ELSE IF s.pdu \in {"no_info", "no_slice", "no_snssai"} THEN
                 (IF "pdu" \in DEV_NilDerefs THEN [class |-> "500", leaks |-> DEV_CreateNoDefer] ELSE [class |-> "4xx", leaks |-> FALSE])
-         ELSE IF s.plmn \in {"shortmcc", "shortmnc", "emptymnc", "multibyte"} THEN
+         ELSE IF s.plmn \notin {"absent", "ok", "ok3"} THEN     \* every other variant is malformed (MCC not 3 digits or MNC not 2..3)
                 (IF "plmn" \in DEV_NilDerefs THEN [class |-> "500", leaks |-> DEV_CreateNoDefer] ELSE [class |-> "4xx", leaks |-> FALSE])
          ELSE [class |-> "2xx", leaks |-> FALSE]
     [] s.ep \in {"update", "release"} ->
